@@ -20,6 +20,7 @@ from oslo_config import cfg
 from oslo_serialization import jsonutils
 import stevedore
 
+from oslo_policy import _parser
 from oslo_policy import policy
 
 LOG = logging.getLogger(__name__)
@@ -581,9 +582,11 @@ def _upgrade_policies(policies, default_policies):
                 # A deprecated policy may have been split into several new
                 # ones, so only drop the old name once all are handled.
                 upgraded.add(old_name)
-                if policies[old_name] == 'rule:%s' % rule_default.name:
-                    # Merely the alias suggested by the sample file; the new
-                    # policy keeps its default.
+                if (str(_parser.parse_rule(policies[old_name])) ==
+                        'rule:%s' % rule_default.name):
+                    # Merely the alias suggested by the sample file, however
+                    # it is spelled (the enforcer compares the parsed check
+                    # as well); the new policy keeps its default.
                     continue
                 policies[rule_default.name] = policies[old_name]
                 LOG.info('The name of policy %(old_name)s has been upgraded to'
